@@ -835,8 +835,13 @@ analyze_function(CallGraphNode cg_node,
       CRAB_VERBOSE_IF(1, get_msg_stream()
                              << "++ Fixpoint reached for recursive function "
                              << cfg.get_func_decl().get_func_name() << "!\n";);
-      // Don't check invariants with the last iteration
-      return nullptr;
+      if (iteration > 0) {
+        // Don't check invariants with the last iteration
+        return nullptr;
+      }
+      // The first iteration is already a post-fixpoint (e.g., the
+      // function never returns): its invariants are the result and
+      // they are stored below.
     } else {
       CRAB_VERBOSE_IF(1, get_msg_stream()
                              << "++ Widening " << iteration
